@@ -12,7 +12,7 @@ import numpy as np
 
 from ..sim import gen_sched, MODES, HarnessError
 from ..util import A, L, Result, rel_diff, sig6, compositions, random_composition
-from .common import SimRec, gen_data, gen_simplex, trim, drop_row_chunks
+from .common import SimRec, gen_data, gen_simplex, trim, drop_row_chunks, tail
 
 ID = "C04"
 CHUNK = 12
@@ -95,7 +95,7 @@ def gen_case(rng, tier, kind=None):
     case = {"kind": kind}
     if kind in ("kmeans", "gmm_ml", "gmm_map", "gmm_kminit"):
         n = rng.randint(2, (300 if huge else 80) if big else 30)
-        d = rng.randint(1, 6 if big else 4)
+        d = tail(rng, 1, 6 if big else 4, [9, 17, 33, 65], 0.03)
         X = gen_data(rng, n, d)
         if rng.random() < 0.06:  # integer-valued (still valid) training data
             X = np.round(X / (np.abs(X).max() or 1.0) * 50.0)
@@ -110,7 +110,7 @@ def gen_case(rng, tier, kind=None):
         case["K"] = K
         case["thr"] = rng.choice(THRS)
         if kind == "kmeans":
-            k = rng.randint(1, min(8 if big else 4, n))
+            k = min(n, tail(rng, 1, min(8 if big else 4, n), [9, 17, 33], 0.04))
             r = rng.random()
             if r < 0.7:
                 rs = np.random.RandomState(rng.getrandbits(32))
@@ -126,7 +126,7 @@ def gen_case(rng, tier, kind=None):
                 case["K"] = min(case["K"], 3)
             case["cfg"] = {"k": k, "init": init, "rs": rng.randint(0, 1000)}
         else:
-            c = rng.randint(1, min(6 if big else 3, n))
+            c = min(n, tail(rng, 1, min(6 if big else 3, n), [9, 17, 33, 65], 0.04))
             means, variances, weights = _gmm_params(rng, X, c)
             cfg = {"c": c, "means": L(means), "variances": L(variances), "weights": L(weights),
                    "um": rng.random() < 0.8, "uv": rng.random() < 0.5, "uw": rng.random() < 0.5}
@@ -148,8 +148,8 @@ def gen_case(rng, tier, kind=None):
                 case["K"] = rng.randint(0, 3)
             case["cfg"] = cfg
     elif kind in ("isv", "jfa"):
-        nc = rng.randint(2, 7 if big else 4)
-        n = rng.randint(nc, 60 if big else 18)
+        nc = tail(rng, 2, 7 if big else 4, [9, 17, 33, 65, 70], 0.05)
+        n = rng.randint(nc, max(nc + 4, 60 if big else 18))
         d = rng.randint(1, 3)
         X = gen_data(rng, n, d)
         y = list(range(nc)) + [rng.randrange(nc) for _ in range(n - nc)]
@@ -160,7 +160,8 @@ def gen_case(rng, tier, kind=None):
         means, variances, weights = _gmm_params(rng, X, c)
         case.update(X=L(X), y=y, chunks=_gen_chunks(rng, n), yform=rng.choice(["array", "list", "dask"]),
                     cfg={"c": c, "means": L(means), "variances": L(variances), "weights": L(weights),
-                         "rU": rng.randint(1, 3), "rV": rng.randint(1, 3), "it": rng.randint(1, 4),
+                         "rU": tail(rng, 1, 3, [5, 9], 0.04), "rV": tail(rng, 1, 3, [5, 9], 0.04),
+                         "it": rng.randint(1, 4),
                          "rf": rng.choice([4.0, 1.0, 10.0]), "rs": rng.randint(0, 1000),
                          "ubm_kwargs": rng.random() < 0.12})
     else:  # wccn / whitening
@@ -174,6 +175,8 @@ def gen_case(rng, tier, kind=None):
         mix = rs.randn(d, d) + 2 * np.eye(d)
         X = sig6(rs.randn(n, d) @ mix * 10.0 ** rng.uniform(-1, 1) + rs.uniform(-2, 2, size=d))
         case.update(X=L(X), chunks=_gen_chunks(rng, n, many=huge), cfg={"pinv": rng.random() < 0.15})
+        if nc > 16:  # the per-class Dask graph is large: keep the number of blocks small
+            case["chunks"] = random_composition(rng, n, rng.randint(1, 6))
         if kind == "wccn":
             y = [i % nc for i in range(n)]
             rng.shuffle(y)
@@ -189,6 +192,24 @@ def gen_case(rng, tier, kind=None):
     elif r < 0.16 and kind in ("kmeans", "gmm_ml", "gmm_map"):
         case["xform"] = "float32"
         case["K"] = min(case.get("K", 1), 3)
+    elif r < 0.22 and kind in ("kmeans", "gmm_ml", "gmm_map", "gmm_kminit") \
+            and isinstance(case["cfg"].get("init", []), list):
+        # narrow integer data (8-bit images, 16-bit audio): still valid training data
+        case["xform"] = rng.choice(["uint8", "int8", "int16", "uint16"])
+        Xi = A(case["X"])
+        info = np.iinfo(getattr(np, case["xform"]))
+        lo, hi = Xi.min(), Xi.max()
+        Xi = np.round((Xi - lo) / ((hi - lo) or 1.0) * (info.max - info.min) * 0.98 + info.min * 0.98)
+        case["X"] = L(Xi)
+        smax = float(np.abs(Xi).max()) or 1.0
+        cfg = case["cfg"]
+        if kind == "kmeans":
+            cfg["init"] = L(Xi[: cfg["k"]] + 0.25)
+        else:
+            cfg["means"] = L(Xi[: cfg["c"]] + 0.25)
+            cfg["variances"] = L(np.full((cfg["c"], Xi.shape[1]), (smax * 0.3) ** 2))
+            if cfg.get("vfloor") is not None:
+                cfg["vfloor"] = float(sig6(1e-3 * smax * smax))
     if kind in ("gmm_ml", "gmm_map") and not case.get("fchunks") and rng.random() < 0.12:
         # a lazily row-filtered array: Dask does not know its chunk sizes (nan). GMM training
         # accepts such arrays (k-means, WCCN, whitening and the ISV/JFA array path refuse them
@@ -471,6 +492,8 @@ def _xform(case, X):
         return big[::2, :-1]
     if f == "float32":
         return X.astype(np.float32)
+    if f in ("uint8", "int8", "int16", "uint16"):
+        return X.astype(getattr(np, f))
     return X
 
 
